@@ -134,6 +134,25 @@ fn finish(v: u8, family: &'static str, mut e: Ev, room: &Room, f: &mut dyn FnMut
             }
         }
     }
+    // the same question when the sender is the room's creator: with a power-levels event in the state the
+    // creator has the level that event gives them (their entry or users_default), nothing more
+    if e.ty != "m.room.create" && room.state.contains_key(&("m.room.power_levels".to_owned(), String::new())) {
+        let key = ("m.room.create".to_owned(), String::new());
+        if let Some(create) = room.state.get(&key) {
+            if create.sender != e.sender {
+                let mut create2 = create.clone();
+                create2.sender = e.sender.clone();
+                let mut c = create2.content_value();
+                if c.get("creator").is_some() {
+                    c["creator"] = json!(e.sender);
+                }
+                create2.content = c.to_string();
+                let mut st = room.state.clone();
+                st.insert(key, create2);
+                f(Case { v, family, ev: e.clone(), state: st, tpi_sig_valid: false });
+            }
+        }
+    }
     f(Case { v, family, ev: e, state: room.state.clone(), tpi_sig_valid: false });
     if let Some(e2) = with_via {
         f(Case { v, family, ev: e2, state: room.state.clone(), tpi_sig_valid: false });
